@@ -1,7 +1,7 @@
 #!/bin/sh
 # exploratory sweep (not a registered check): C01 harness over all configurations
 for cfg in 0 1 2 3 4 5 6; do
-  /verif/bin/gosmt run -dir /repo -pkg ./index -overlay /verif/harness -entry VerifC01 -workers 16 -bounds ops=${OPS:-5},cfg=$cfg,maxlevel=${ML:-1},maporder=${MO:-0} -max-seconds ${MAXS:-1500} -out /tmp/sweep-c01-$cfg.json 2>&1 | grep -v '^goroutine\|^main\.\|^\s/\|^panic\|^\s*$' | cut -c1-400 | head -12
+  /verif/bin/gosmt run -dir /repo -pkg ./index -overlay /verif/harness -entry VerifC01 -workers ${W:-8} -bounds ops=${OPS:-5},cfg=$cfg,maxlevel=${ML:-1},maporder=${MO:-0} -max-seconds ${MAXS:-1500} -out /tmp/sweep-c01-$cfg.json 2>&1 | grep -v '^goroutine\|^main\.\|^\s/\|^panic\|^\s*$' | cut -c1-400 | head -12
   python3 -c "
 import json
 d=json.load(open('/tmp/sweep-c01-$cfg.json'))
